@@ -15,6 +15,11 @@ class PathEnd(Exception):
     """The current path ends here (infeasible, or a loop-preservation path that is finished)."""
 
 
+class TimeBudget(BaseException):
+    """raised by the interpreter when a harness runs past its wall-clock budget (BaseException: no handler of the code under test
+    or of a harness may swallow it)"""
+
+
 class OutOfSubset(Exception):
     """The code under contract uses something pyvc does not model: verdict `undecided`."""
 
